@@ -20,8 +20,8 @@ ASSUMPTIONS = [
     "clause form (no exact victim set) so that score ties and float-equal totals are accepted either way",
 ]
 NSHARDS = {"quick": 16, "thorough": 16}
-N_CASES = {"quick": 260, "thorough": 8000}
-N_SIM = {"quick": 12, "thorough": 300}
+N_CASES = {"quick": 260, "thorough": 50000}
+N_SIM = {"quick": 12, "thorough": 1500}
 REQUIRE = {"kill_pool_level": 1000, "ticks_with_pool_level_victims": 400, "ticks_with_multiple_victims": 50,
            "ticks_usage_order_differs_from_score_order": 50, "cases_with_ties": 20, "sim_kills_pool_level": 20}
 
